@@ -342,8 +342,17 @@ func printInfo(id string) {
 			enum = append(enum, c.Name)
 		}
 	}
+	// per phase: the campaigns that follow a fresh-process campaign (determinism self-test)
+	resume := map[string][]string{}
+	for i, c := range p.Campaigns {
+		if i > 0 && p.Campaigns[i-1].Fresh && p.Campaigns[i-1].Phase == c.Phase && !c.Fresh {
+			k := fmt.Sprint(c.Phase)
+			resume[k] = append(resume[k], c.Name)
+		}
+	}
 	b, _ := json.Marshal(map[string]interface{}{
-		"id": p.ID, "level": p.Level, "rule": p.Rule, "quick_sec": p.QuickSec, "thorough_sec": p.ThoroughSec,
+		"resume_after_fresh": resume,
+		"id":                 p.ID, "level": p.Level, "rule": p.Rule, "quick_sec": p.QuickSec, "thorough_sec": p.ThoroughSec,
 		"race": p.Race, "race_phases": p.RacePhases, "phase_budget": p.PhaseBudget, "hang_kind": p.HangKind, "procs": p.Procs, "workers": p.Workers, "run_timeout_sec": p.RunTimeoutSec, "sync_yields": p.SyncYields, "phases": phases,
 		"assumptions": p.Assumptions, "components": p.Components, "campaigns": camps, "enumerated": enum,
 	})
